@@ -15,7 +15,7 @@ import prettyprinter as P
 
 PP = common.pp_module('prettyprinter.prettyprinter')
 
-CLASSES = ['A', 'B', 'C', 'M', 'D']
+CLASSES = ['A', 'B', 'C', 'M', 'D', 'E', 'F']
 FLAGS = [(cs, cd, rd) for cs in (False, True) for cd in (False, True) for rd in (False, True)]
 
 MC_CFG = """CONSTANTS NP = %(NP)d
@@ -52,7 +52,7 @@ _counter = [0]
 
 
 class World:
-    """Freshly minted classes A; B(A); C(B); M; D(B, M) with unique qualified names."""
+    """Freshly minted classes A; B(A); C(B); M; D(B, M); E(A); F(B, E) with unique qualified names."""
 
     def __init__(self):
         _counter[0] += 1
@@ -63,7 +63,10 @@ class World:
         C = type('C', (B,), dict(ns))
         M = type('M', (), dict(ns))
         D = type('D', (B, M), dict(ns))
-        self.cls = {'A': A, 'B': B, 'C': C, 'M': M, 'D': D}
+        E = type('E', (A,), dict(ns))
+        F = type('F', (B, E), dict(ns))     # a diamond over A: MRO F, B, E, A
+        assert [k.__name__ for k in F.__mro__[:-1]] == ['F', 'B', 'E', 'A']
+        self.cls = {'A': A, 'B': B, 'C': C, 'M': M, 'D': D, 'E': E, 'F': F}
         self.mod = mod
         self.preds = {'q1': (lambda x, A=A: isinstance(x, A)), 'q2': (lambda x, M=M: isinstance(x, M))}
         self.base_preds = len(PP._PREDICATE_REGISTRY)
@@ -197,7 +200,7 @@ def tlc_histories(chk, hist_len, simulate=None, lattice='full', np_=2, name='emi
 
 def model_check(chk):
     """All reachable states of the (abstract, concrete) pair on two 3-class sub-lattices."""
-    for lat in (['chain', 'multi'] if chk.tier == 'thorough' else ['multi']):
+    for lat in (['chain', 'multi', 'diamond'] if chk.tier == 'thorough' else ['multi']):
         wd = os.path.join(chk.workdir, 'mc-' + lat)
         cfg = MC_CFG % dict(NP=2, MAXP=1 if chk.tier == 'quick' else 2, EMIT='FALSE', HL=0, LAT=lat, EXTRA=INVS)
         r = common.run_tlc('RegistryMC', cfg, wd, workers=common.NCPU, heap='6g',
@@ -246,6 +249,15 @@ def check_c15(chk, args):
     chk.stage('tlc.emit exhaustive', hist_len=2, histories=len(hs), states=r.distinct)
     sims, r2 = tlc_histories(chk, 12, simulate='num=%d' % (60 if q else 1500), name='sim')
     chk.stage('tlc.emit simulate', hist_len=12, histories=len(sims))
+    # every history of length 3 on the diamond A; B(A); E(A); F(B, E): MRO order vs. a depth-first walk of the bases
+    hd, rd = tlc_histories(chk, 3, lattice='diamond', np_=2, name='emit3d')
+    chk.stage('tlc.emit exhaustive', hist_len=3, lattice='diamond', histories=len(hd), states=rd.distinct)
+    if q:
+        # quick tier: ALL "register, register, print" histories, a sample of the others
+        core = [h for h in hd if h[-1]['op'] == 'print' and all(o['op'] in ('regc', 'regn', 'regp') for o in h[:-1])]
+        rest = [h for h in hd if any(o['op'] == 'print' for o in h) and h not in core[:0]]
+        hd = core + rng.sample(rest, min(3000, len(rest)))
+    hs += hd
     if not q:
         h3, r3 = tlc_histories(chk, 3, lattice='multi', name='emit3')
         chk.stage('tlc.emit exhaustive', hist_len=3, lattice='multi', histories=len(h3), states=r3.distinct)
@@ -286,7 +298,7 @@ def check_c15(chk, args):
     chk.cov['evaluations'] = len(traces)
     chk.cov['traces_validated_against_impl'] = len(traces)
     chk.cov['rule'] = ('operation sequences over {register by class, by name, predicate, print, is_registered x 8 flag '
-                       'combinations} on freshly minted classes A; B(A); C(B); M; D(B,M): all histories of length 2 '
+                       'combinations} on freshly minted classes A; B(A); C(B); M; D(B,M); E(A); F(B,E) (a diamond): all histories of length 2 '
                        'emitted by TLC, TLC -simulate walks of length 12, seeded random ones of length 4-14; '
                        'non-trivial = contains a by-name registration and a print; distinct by operation sequence')
     for t in traces[::max(1, len(traces) // 5)][:5]:
